@@ -1,9 +1,191 @@
-(* C04 - object lifecycle is monotone and gates every cryptographic use (placeholder while the proofs are written) *)
-From PK Require Import Lifecycle.Model Lifecycle.Cases.
-From Coq Require Import ZArith List.
+(* C04 - Object lifecycle is monotone and gates every cryptographic use.
+
+   Statement (properties.jsonl): a managed cryptographic object moves only Pre-Active -> Active -> Deactivated, or
+   into Compromised on a key- or CA-compromise revocation, and never returns to an earlier state; only Activate and
+   Revoke change the state.  Encrypt, Decrypt, Sign, SignatureVerify, MAC and use as a wrapping key succeed only
+   while the key is Active, is of the right kind, and its usage mask contains the matching bit (DeriveKey requires
+   the Derive Key bit).  Destroy is refused for an Active object.
+
+   The theorems are about Lifecycle.Model.step, the executable model of the guards of
+   kmip/services/server/engine.py, tied to the code on every run by harness/c04.py (Lifecycle.Cases.check_hcase).
+   Proofs: Lifecycle/LifecycleProofs.v.  Vocabulary (transition, property_move, wf, gate, usable): Lifecycle/Spec.v. *)
+From PK Require Import Lifecycle.Model Lifecycle.Spec Lifecycle.LifecycleProofs.
+From Coq Require Import ZArith List Bool.
 Import ListNotations.
 Open Scope Z_scope.
-Example c04_model_runs :
-  map fst (trace (empty_store 1) [(Create 4, true); (Encrypt 1 true, true); (Activate 1, true); (Encrypt 1 true, true)])
-  = [OK; Refused RState PermissionDenied; OK; OK].
-Proof. vm_compute. reflexivity. Qed.
+
+(* ---------------------------------------------------------------- 1. allowed transitions *)
+(* exactly what one step does to one stored object, for ANY store: type and mask are untouched and the State
+   changes in one of the four listed ways (Lifecycle.Spec.transition) *)
+Theorem step_transition_exact : forall cok s o out s' v ob ob',
+  step cok s o = (out, s') ->
+  lookup v (objs s) = Some ob -> lookup v (objs s') = Some ob' ->
+  oty ob' = oty ob /\ omask ob' = omask ob /\ transition o out v (ost ob) (ost ob').
+Proof. exact LifecycleProofs.step_transition_exact. Qed.
+Print Assumptions step_transition_exact.
+
+(* the property's reading (compromise c := KeyCompromise or CACompromise), for every store the engine can be in *)
+Theorem step_transition : forall cok s o out s' v ob ob',
+  wf s -> step cok s o = (out, s') ->
+  lookup v (objs s) = Some ob -> lookup v (objs s') = Some ob' ->
+  ost ob = ost ob'
+  \/ (o = Activate v /\ ost ob = Some PreActive /\ ost ob' = Some Active)
+  \/ (exists c, o = Revoke v c /\ ost ob = Some Active /\ ost ob' = Some Deactivated)
+  \/ (exists c, o = Revoke v c /\ compromise c /\ ost ob' = Some Compromised).
+Proof. exact LifecycleProofs.step_transition. Qed.
+Print Assumptions step_transition.
+
+Example step_transition_nonvacuous :
+  let s := exec (empty_store 1) [(Create 4, true); (Activate 1, true)] in
+  wf s /\ exists s' ob ob', step true s (Revoke 1 CACompromise) = (OK, s')
+    /\ lookup 1 (objs s) = Some ob /\ lookup 1 (objs s') = Some ob'
+    /\ ost ob = Some Active /\ ost ob' = Some Deactivated.
+Proof.
+  split. apply exec_wf, wf_empty.
+  eexists. eexists. eexists. split. vm_compute. reflexivity.
+  split. vm_compute. reflexivity. split. vm_compute. reflexivity. split; reflexivity.
+Qed.
+
+(* ---------------------------------------------------------------- 2. never back to an earlier state *)
+(* every history (list of operations with their crypto-oracle inputs) from the empty store, cut anywhere: the rank
+   of the object with identifier v after h1 is at most its rank after h1 ++ h2.  Induction over h2. *)
+Theorem monotone : forall first h1 h2 v ob ob',
+  lookup v (objs (exec (empty_store first) h1)) = Some ob ->
+  lookup v (objs (exec (empty_store first) (h1 ++ h2))) = Some ob' ->
+  orank (ost ob) <= orank (ost ob').
+Proof. exact LifecycleProofs.monotone. Qed.
+Print Assumptions monotone.
+
+(* the same from any well-formed store, with type and mask *)
+Theorem monotone_from : forall h s v ob ob',
+  wf s -> lookup v (objs s) = Some ob -> lookup v (objs (exec s h)) = Some ob' ->
+  orank (ost ob) <= orank (ost ob') /\ oty ob' = oty ob /\ omask ob' = omask ob.
+Proof. exact LifecycleProofs.monotone_from. Qed.
+Print Assumptions monotone_from.
+
+(* states a stored object can be in at all *)
+Theorem reachable_states : forall first h v ob,
+  lookup v (objs (exec (empty_store first) h)) = Some ob ->
+  ost ob = None \/ ost ob = Some PreActive \/ ost ob = Some Active \/ ost ob = Some Deactivated \/ ost ob = Some Compromised.
+Proof. exact LifecycleProofs.reachable_states. Qed.
+Print Assumptions reachable_states.
+
+Example monotone_nonvacuous :
+  let h1 := [(Create 4, true); (Activate 1, true)] in
+  let h2 := [(Revoke 1 Superseded, true); (Activate 1, true); (Revoke 1 KeyCompromise, true); (Revoke 1 Unspecified, true)] in
+  exists ob ob', lookup 1 (objs (exec (empty_store 1) h1)) = Some ob
+              /\ lookup 1 (objs (exec (empty_store 1) (h1 ++ h2))) = Some ob'
+              /\ orank (ost ob) = 1 /\ orank (ost ob') = 3.
+Proof. eexists. eexists. split. vm_compute. reflexivity. split. vm_compute. reflexivity. split; reflexivity. Qed.
+
+(* ---------------------------------------------------------------- 3. only Activate and Revoke change the state *)
+Theorem only_activate_revoke_change_state : forall cok s o out s' v ob ob',
+  step cok s o = (out, s') ->
+  lookup v (objs s) = Some ob -> lookup v (objs s') = Some ob' ->
+  ost ob' <> ost ob ->
+  out = OK /\ (o = Activate v \/ exists c, o = Revoke v c).
+Proof. exact LifecycleProofs.only_activate_revoke_change_state. Qed.
+Print Assumptions only_activate_revoke_change_state.
+
+Example only_activate_revoke_nonvacuous :
+  exists s s' ob ob', step true s (Activate 1) = (OK, s') /\ lookup 1 (objs s) = Some ob
+                   /\ lookup 1 (objs s') = Some ob' /\ ost ob' <> ost ob.
+Proof.
+  exists (exec (empty_store 1) [(Register Certificate 0, true)]). eexists. eexists. eexists.
+  split. vm_compute. reflexivity. split. vm_compute. reflexivity. split. vm_compute. reflexivity.
+  simpl. discriminate.
+Qed.
+
+(* ---------------------------------------------------------------- 4. cryptographic use is gated *)
+(* gate s o (Lifecycle.Spec): Encrypt/Decrypt -> SymmetricKey, Active, Encrypt/Decrypt bit; Sign -> PrivateKey,
+   Active, Sign bit; SignatureVerify -> PublicKey, Active, Verify bit; MAC -> Active, MAC Generate bit (no type:
+   see below); Get with wrapping -> wrapping key SymmetricKey, Active, Wrap Key bit; DeriveKey -> at least one base
+   object, every base object of a derivable type with the Derive Key bit. *)
+Theorem crypto_gated : forall cok s o s', step cok s o = (OK, s') -> gate s o.
+Proof. exact LifecycleProofs.crypto_gated. Qed.
+Print Assumptions crypto_gated.
+
+(* stronger: the key material does not even reach the CryptographyEngine unless the gate holds *)
+Theorem crypto_engine_gated : forall cok s o r s',
+  step cok s o = (r, s') -> crypto_called o r = true -> gate s o.
+Proof. exact LifecycleProofs.crypto_engine_gated. Qed.
+Print Assumptions crypto_engine_gated.
+
+(* at any point of any history *)
+Theorem crypto_gated_history : forall first h e r s',
+  step (snd e) (exec (empty_store first) h) (fst e) = (r, s') -> crypto_called (fst e) r = true ->
+  gate (exec (empty_store first) h) (fst e).
+Proof. exact LifecycleProofs.crypto_gated_history. Qed.
+Print Assumptions crypto_gated_history.
+
+(* gated operations never change a stored object (DeriveKey may add the derived key) *)
+Theorem gated_store_unchanged : forall cok s o r s',
+  step cok s o = (r, s') -> gated o = true ->
+  s' = s \/ (exists us m, o = DeriveKey us m /\ r = OK /\ s' = add_obj s SymmetricKey m).
+Proof. exact LifecycleProofs.gated_store_unchanged. Qed.
+Print Assumptions gated_store_unchanged.
+
+Example crypto_gated_nonvacuous :
+  let s := exec (empty_store 1) [(Create 671, true); (CreateKeyPair 2 1, true); (Activate 1, true); (Activate 2, true); (Activate 3, true)] in
+  step true s (Encrypt 1 true) = (OK, s) /\ step true s (Decrypt 1 true) = (OK, s) /\ step true s (Sign 3 true) = (OK, s)
+  /\ step true s (SignatureVerify 2 true) = (OK, s) /\ step true s (MAC 1 true true) = (OK, s)
+  /\ step true s (GetWrap 3 1) = (OK, s) /\ fst (step true s (DeriveKey [1] 12)) = OK
+  /\ step true s (Sign 2 true) = (Refused RType PermissionDenied, s)
+  /\ step true s (Encrypt 3 true) = (Refused RType PermissionDenied, s).
+Proof. vm_compute. repeat split. Qed.
+
+(* MAC and "the right kind": the code has no object-type guard in _process_mac.  Full-strength clause: *)
+Definition mac_right_kind_statement : Prop :=
+  forall cok s u alg data s', step cok s (MAC u alg data) = (OK, s') ->
+  exists ob, lookup u (objs s) = Some ob /\ mac_kind (oty ob).
+
+(* it holds when the addressed object is not a public / private / split key or a certificate ... *)
+Theorem crypto_gated_mac_partial : forall cok s u alg data s',
+  (forall ob, lookup u (objs s) = Some ob ->
+     oty ob <> PublicKey /\ oty ob <> PrivateKey /\ oty ob <> SplitKey /\ oty ob <> Certificate) ->
+  wf_typed s ->
+  step cok s (MAC u alg data) = (OK, s') ->
+  exists ob, lookup u (objs s) = Some ob /\ mac_kind (oty ob).
+Proof. exact LifecycleProofs.mac_right_kind_partial. Qed.
+Print Assumptions crypto_gated_mac_partial.
+
+(* ... and is false in general: known finding C04-mac-wrong-kind-* (witness: Register a private key with
+   MAC_GENERATE, Activate, MAC) *)
+Theorem crypto_gated_mac_refuted :
+  exists cok s u alg data s', wf s /\ wf_typed s /\ step cok s (MAC u alg data) = (OK, s') /\
+    exists ob, lookup u (objs s) = Some ob /\ oty ob = PrivateKey.
+Proof. exact LifecycleProofs.mac_right_kind_refuted. Qed.
+Print Assumptions crypto_gated_mac_refuted.
+
+Theorem mac_right_kind_fails : ~ mac_right_kind_statement.
+Proof. exact LifecycleProofs.mac_right_kind_fails. Qed.
+Print Assumptions mac_right_kind_fails.
+
+Example crypto_gated_mac_partial_nonvacuous :
+  let s := exec (empty_store 1) [(Register SecretData 128, true); (Activate 1, true)] in
+  wf_typed s /\ step true s (MAC 1 true true) = (OK, s)
+  /\ (forall ob, lookup 1 (objs s) = Some ob -> oty ob <> PublicKey /\ oty ob <> PrivateKey /\ oty ob <> SplitKey /\ oty ob <> Certificate).
+Proof.
+  split. apply exec_typed, typed_empty. split. vm_compute. reflexivity.
+  intros ob L. vm_compute in L. inversion L; subst. simpl. repeat split; discriminate.
+Qed.
+
+(* ---------------------------------------------------------------- 5. Destroy is refused for an Active object *)
+Theorem destroy_refused_when_active : forall cok s u ob,
+  lookup u (objs s) = Some ob -> ost ob = Some Active ->
+  step cok s (Destroy u) = (Refused RState PermissionDenied, s).
+Proof. exact LifecycleProofs.destroy_refused_when_active. Qed.
+Print Assumptions destroy_refused_when_active.
+
+Theorem destroy_ok_inv : forall cok s u s',
+  step cok s (Destroy u) = (OK, s') ->
+  (exists ob, lookup u (objs s) = Some ob /\ ost ob <> Some Active) /\
+  lookup u (objs s') = None /\ (forall v, v <> u -> lookup v (objs s') = lookup v (objs s)).
+Proof. exact LifecycleProofs.destroy_ok_inv. Qed.
+Print Assumptions destroy_ok_inv.
+
+Example destroy_nonvacuous :
+  let s := exec (empty_store 1) [(Create 4, true); (Activate 1, true)] in
+  (exists ob, lookup 1 (objs s) = Some ob /\ ost ob = Some Active)
+  /\ fst (step true (exec s [(Revoke 1 CACompromise, true)]) (Destroy 1)) = OK.
+Proof. split. eexists. split. vm_compute. reflexivity. reflexivity. vm_compute. reflexivity. Qed.
